@@ -84,12 +84,24 @@ def main(argv=None):
     jobs = mod.jobs(args.tier, seed)
     if args.only:
         jobs = [j for j in jobs if args.only in repr(j)]
+    if os.environ.get('VERIF_BUDGET'):
+        jobs = [dict(j, budget=int(os.environ['VERIF_BUDGET'])) for j in jobs]
     budget = getattr(mod, 'DEADLINE', {}).get(args.tier, 3000 if args.tier == 'quick' else 6 * 3600)
     results = common.run_jobs(mod.__name__, jobs, procs=args.procs, deadline=t0 + budget)
 
     if os.environ.get('VERIF_JOBTIMES'):
-        for r in sorted(results, key=lambda r: -r.get('wall', 0))[:12]:
-            log('jobtime', r.get('wall'), r.get('paths'), r.get('job'))
+        import collections
+        agg = collections.defaultdict(lambda: [0, 0, 0.0, 0])
+        for r in results:
+            j = r.get('job') or {}
+            k = (j.get('fam'), j.get('kind'), j.get('dict'), j.get('list'), str(j.get('shape')), str(j.get('lens')))
+            a = agg[k]
+            a[0] += r.get('paths', 0)
+            a[1] += 1
+            a[2] += r.get('wall', 0)
+            a[3] += 0 if (r.get('exhausted') or r.get('frontier')) else 1
+        for k, a in sorted(agg.items(), key=lambda kv: -kv[1][2])[:14]:
+            log('jobtime', round(a[2]), 'cpu-s', a[0], 'paths', a[1], 'procs', 'NOTEXH' if a[3] else '', k)
     paths = queries = infeasible = aborted = 0
     solver_s = 0.0
     replays = 0
